@@ -253,6 +253,17 @@ impl SecondaryStorage {
             ordered_pk_ids: ordered_pk_ids.to_vec(),
         };
 
+        // Two sessions creating the same table both passed the binder's check: only one of
+        // them may log the table, otherwise the manifest can not be replayed any more.
+        let _ddl = self.ddl_lock.lock().await;
+        let exists = self
+            .catalog
+            .get_schema_by_id(schema_id)
+            .is_some_and(|schema| schema.get_table_by_name(table_name).is_some());
+        if exists {
+            return Err(TracedStorageError::duplicated("table", table_name));
+        }
+
         // persist to manifest first
         self.version
             .commit_changes(vec![EpochOp::CreateTable(entry.clone())])
@@ -290,6 +301,8 @@ impl SecondaryStorage {
         let mut changeset = vec![];
 
         let entry = DropTableEntry { table_id };
+
+        let _ddl = self.ddl_lock.lock().await;
 
         // contrary to create table, we first modify the catalog
         self.apply_drop_table(&entry)?;
